@@ -446,3 +446,10 @@ fn unicode_to_macroman(c: u32) -> u32 {
     };
     (0x80 + index) as u32
 }
+
+/// Verification hooks (compiled only with `--cfg rb_verif`).
+#[cfg(rb_verif)]
+#[allow(unused_imports, dead_code, missing_docs)]
+pub mod verif_hooks {
+    use super::*;
+}
